@@ -5,6 +5,7 @@ import (
 	"reflect"
 	"unsafe"
 
+	"github.com/goccy/go-json/internal/errors"
 	"github.com/goccy/go-json/internal/runtime"
 )
 
@@ -41,10 +42,29 @@ func (d *wrappedStringDecoder) DecodeStream(s *Stream, depth int64, p unsafe.Poi
 	}
 	b := make([]byte, len(bytes)+1)
 	copy(b, bytes)
-	if _, err := d.dec.Decode(&RuntimeContext{Buf: b}, 0, depth, p); err != nil {
+	c, err := d.dec.Decode(&RuntimeContext{Buf: b}, 0, depth, p)
+	if err != nil {
+		return err
+	}
+	if err := d.validatePayload(bytes, c, s.totalOffset()); err != nil {
 		return err
 	}
 	return nil
+}
+
+// validatePayload reports a quoted payload that is not exactly one literal:
+// leading white space, or bytes left over after the value that was decoded.
+func (d *wrappedStringDecoder) validatePayload(payload []byte, consumed, offset int64) error {
+	if consumed == int64(len(payload)) && (len(payload) == 0 || !isWhiteSpace[payload[0]]) {
+		return nil
+	}
+	return &errors.UnmarshalTypeError{
+		Value:  "string " + string(payload),
+		Type:   runtime.RType2Type(d.typ),
+		Struct: d.structName,
+		Field:  d.fieldName,
+		Offset: offset,
+	}
 }
 
 func (d *wrappedStringDecoder) Decode(ctx *RuntimeContext, cursor, depth int64, p unsafe.Pointer) (int64, error) {
@@ -58,13 +78,18 @@ func (d *wrappedStringDecoder) Decode(ctx *RuntimeContext, cursor, depth int64, 
 		}
 		return c, nil
 	}
+	payloadLen := len(bytes)
 	bytes = append(bytes, nul)
 	oldBuf := ctx.Buf
 	ctx.Buf = bytes
-	if _, err := d.dec.Decode(ctx, 0, depth, p); err != nil {
+	consumed, err := d.dec.Decode(ctx, 0, depth, p)
+	ctx.Buf = oldBuf
+	if err != nil {
 		return 0, err
 	}
-	ctx.Buf = oldBuf
+	if err := d.validatePayload(bytes[:payloadLen], consumed, c); err != nil {
+		return 0, err
+	}
 	return c, nil
 }
 
